@@ -21,7 +21,11 @@ def correspondence(ctx):
         for cap in (["random", "one"] + [rng.choice(wlgen.CAPS)]):
             sep = rng.choice([("char", "-"), ("preset", "SFDigits1"), ("preset", "SFSymbols"), ("const", ""), ("recipe", wlgen.Recipe(2, allow=4, require_sets=["357"]))])
             L = rng.choice([1, 2, 3, 5])
-            lines.append("e%d wlentropy %s %d %s %s %d" % (len(lines), wlgen.words_tokens(l), L, wlgen.sep_tokens(sep), core.hx(cap), reps))
+            st = wlgen.sep_tokens(sep)
+            if sep[0] != "char" and rng.random() < 0.25:
+                st = "both %s %s" % (core.hx(rng.choice(["-", "+", "é"])), st)      # SeparatorChar set as well: the function is the one used
+                ctx.count("both_separator_fields")
+            lines.append("e%d wlentropy %s %d %s %s %d" % (len(lines), wlgen.words_tokens(l), L, st, core.hx(cap), reps))
             metas.append({"list": l, "length": L, "sep": sep, "cap": cap})
             if cap in ("random", "one") and (any(w.title() in l and w.title() != w for w in l) or any(w.title() == w for w in l)):
                 ctx.nontrivial.add((tuple(l), L, cap))
